@@ -158,10 +158,18 @@ CLAIMS["C03"] = dict(
 
 CLAIMS["C15"] = dict(
     technique="Lean 4 proof (generic casting re-applied to its own dump; leaf validators accept their own output) + round-trip oracle on the implementation over every stage and field type",
-    text="(in progress)",
+    text="Cast.dump is what model_dump() returns for a cast generic value. C15_cast_roundtrip: for every JSON value j, "
+         "cast (dump (cast j)) = cast j, by strong induction on the size of the cast (every cast value is round-trippable: string "
+         "leaves are their own cast, generic objects stay generic, models and function objects are recognised again), over any "
+         "engine meeting three stated laws (an empty object is no property model; a non-model object stays one once its members "
+         "are cast; the fuel sufficed) which the driver evaluates on every case. C15_quoted_json_needed_repair and "
+         "C15_binary_guard_needed prove by witness that the two repaired defects (D32, D12) broke the round trip; C15_bool_roundtrip, "
+         "C15_binary_roundtrip, C15_colon_roundtrip: each custom leaf validator returns its own dump unchanged. The check round-trips "
+         "every model from parse / resolve / expand_actions over six generators comparing the class of every model and the type of "
+         "every leaf, and compares the implementation's second cast, base64 decoding, semi-strict bool and colon removal with the models.",
     note=TRUST + "partial: the typed resource models are validated by pydantic-core, which is trusted; their round trip is checked on the implementation only.")
 
-for _k in os.environ.get("VERIF_UNCLAIMED", "C15").split(","):
+for _k in os.environ.get("VERIF_UNCLAIMED", "").split(","):
     CLAIMS.pop(_k, None)  # in progress: not claimed until its theorems exist
 
 DESIGN_REF = {k: f"DESIGN.md §5 {k}" for k in CLAIMS}
